@@ -63,6 +63,58 @@ struct Beh {
     chk: u8,
     /// rows [k, form, klo, khi, vlo, vhi, e, p1, p2]
     items: Vec<Value>,
+    /// Attributes::has_nil with `p` bound to the XMLSchema-instance namespace
+    #[serde(default)]
+    nil: Option<u8>,
+    /// BytesStart::try_get_attribute for the names a, ab, p:nil, bb: rows [kind, vlo|p1, vhi|p2, e]
+    #[serde(default)]
+    tga: Option<Vec<Value>>,
+}
+
+const GET_NAMES: [&str; 4] = ["a", "ab", "p:nil", "bb"];
+
+/// the two consumers of the iteration in the public API, in the spec's vocabulary
+fn consumers(s: &str, pos: usize, html: bool, chk: bool) -> (String, Vec<Value>) {
+    let nil = catch_unwind(AssertUnwindSafe(|| {
+        let mut r = quick_xml::NsReader::from_str("<r xmlns:p='http://www.w3.org/2001/XMLSchema-instance'>");
+        r.read_event().unwrap();
+        let mut it = if html { Attributes::html(s, pos) } else { Attributes::new(s, pos) };
+        it.with_checks(chk);
+        it.has_nil(&r)
+    }));
+    let nil = match nil {
+        Ok(true) => "1",
+        Ok(false) => "0",
+        Err(_) => "panic",
+    };
+    let tga = GET_NAMES
+        .iter()
+        .map(|name| {
+            let r = catch_unwind(AssertUnwindSafe(|| {
+                let e = quick_xml::events::BytesStart::from_content(s, pos);
+                match e.try_get_attribute(*name) {
+                    Ok(None) => json!(["None", 0, 0, ""]),
+                    Ok(Some(a)) => {
+                        // the value is a sub-slice of the tag content: report its offsets
+                        let lo = a.value.as_ptr() as usize - s.as_ptr() as usize;
+                        json!(["Some", lo, lo + a.value.len(), ""])
+                    }
+                    Err(err) => {
+                        let (n, p1, p2) = match err {
+                            AttrError::ExpectedEq(p) => ("ExpectedEq", p, 0),
+                            AttrError::ExpectedValue(p) => ("ExpectedValue", p, 0),
+                            AttrError::UnquotedValue(p) => ("UnquotedValue", p, 0),
+                            AttrError::ExpectedQuote(p, q) => ("ExpectedQuote", p, q as usize),
+                            AttrError::Duplicated(p, q) => ("Duplicated", p, q),
+                        };
+                        json!(["Err", p1, p2, n])
+                    }
+                }
+            }));
+            r.unwrap_or_else(|_| json!(["Panic", 0, 0, ""]))
+        })
+        .collect();
+    (nil.to_string(), tga)
 }
 
 pub fn replay(file: &str, prop: &str, out_dir: &str) -> Value {
@@ -100,13 +152,23 @@ pub fn replay(file: &str, prop: &str, out_dir: &str) -> Value {
         if samples.len() < 3 && exp.len() >= 2 && n % 53 == 0 {
             samples.push(json!({"tag": s, "html": b.html, "checks": b.chk, "expected": exp}));
         }
-        if exp != act || !fused {
+        let mut cons_bad: Option<Value> = None;
+        if let (Some(nil), Some(tga)) = (b.nil, b.tga.as_ref()) {
+            let (anil, atga) = consumers(&s, b.pos, b.html != 0, b.chk != 0);
+            cmp += 1 + tga.len() as u64;
+            // try_get_attribute is a method of a start tag: XML mode, name length = pos
+            let tga_ok = b.html != 0 || &atga == tga;
+            if anil != nil.to_string() || !tga_ok {
+                cons_bad = Some(json!({"has_nil": {"expected": nil, "actual": anil}, "try_get_attribute": {"names": GET_NAMES, "expected": tga, "actual": atga}}));
+            }
+        }
+        if exp != act || !fused || cons_bad.is_some() {
             viol += 1;
             if files.len() < 5 {
                 let path = format!("{}/{}-{}.json", out_dir, prop, files.len());
                 std::fs::create_dir_all(out_dir).ok();
                 std::fs::write(&path, serde_json::to_string_pretty(&json!({"property": prop, "kind": "attrs-replay",
-                    "s": b.s, "tag": s, "pos": b.pos, "html": b.html, "chk": b.chk, "expected": exp, "actual": act, "fused": fused})).unwrap()).ok();
+                    "s": b.s, "tag": s, "pos": b.pos, "html": b.html, "chk": b.chk, "expected": exp, "actual": act, "fused": fused, "consumers": cons_bad})).unwrap()).ok();
                 println!("VIOLATION property={} replay={}", prop, path);
                 files.push(path);
             }
